@@ -130,7 +130,7 @@ func (p *Parser) synchronize() {
 //	fmt.Printf("parsed %d statements with %d errors\n", len(result.Statements), len(result.Errors))
 func ParseMultiWithRecovery(tokens []token.Token) *RecoveryResult {
 	p := GetParser()
-	stmts, errs := p.parseWithRecovery(tokens)
+	stmts, errs := p.parseWithRecovery(tokens, nil)
 	return &RecoveryResult{
 		Statements: stmts,
 		Errors:     errs,
@@ -153,22 +153,25 @@ func ParseMultiWithRecovery(tokens []token.Token) *RecoveryResult {
 //	defer parser.PutParser(p)
 //	stmts, errs := p.ParseWithRecovery(tokens)
 func (p *Parser) ParseWithRecovery(tokens []token.Token) ([]ast.Statement, []error) {
-	return p.parseWithRecovery(tokens)
+	return p.parseWithRecovery(tokens, nil)
 }
 
 // ParseWithRecoveryFromModelTokens parses tokenizer output with error recovery.
+// The tokenizer's source positions are kept, so every collected error carries
+// the line and column of the token the parser stopped at.
 func (p *Parser) ParseWithRecoveryFromModelTokens(tokens []models.TokenWithSpan) ([]ast.Statement, []error) {
-	converted, err := convertModelTokens(tokens)
+	converted, err := convertModelTokensWithPositions(tokens)
 	if err != nil {
 		return nil, []error{fmt.Errorf("token conversion failed: %w", err)}
 	}
-	return p.parseWithRecovery(converted)
+	return p.parseWithRecovery(converted.Tokens, converted.PositionMapping)
 }
 
 // parseWithRecovery is the internal implementation shared by both public APIs.
-func (p *Parser) parseWithRecovery(tokens []token.Token) ([]ast.Statement, []error) {
+// positions is the source position table of tokens, or nil if there is none.
+func (p *Parser) parseWithRecovery(tokens []token.Token, positions []TokenPosition) ([]ast.Statement, []error) {
 	p.tokens = tokens
-	p.positions = nil // no position table for this token stream
+	p.positions = positions
 	p.currentPos = 0
 	if len(tokens) > 0 {
 		p.currentToken = tokens[0]
